@@ -9,6 +9,35 @@ cancellation). Oracle: post-mortem monitor over the recorded history (put / begi
 result event / output change), plus output bounds at every quiescent point.
 Two strata: generous stop_timeout (everything must complete, all clauses) and tight
 stop_timeout (only: clean-up bounded by stop_timeout, nothing left behind, no duplicates).
+
+Optional dimensions, each behind its own plan key (absent = off, so replay files recorded
+before they existed - the three known/C12-F13-*.json - execute identically):
+  term2   further termination requests besides main's shutdown() at stop_at: a second
+          shutdown() task / circuit.abort(CancelledError) / circuit.abort(error) /
+          Event('_ctrl', 'shutdown') from a driver callback at stop_at + dt, or wired into the
+          block: on_error=(..., Event.abort()), on_success=(..., Event.shutdown()); the FIRST
+          request whatever its source is "the stop" (stop_ns), the later ones land in the
+          clean-up and must change nothing ("the first error stops the simulation");
+  stalls  a driver callback advances the virtual clock by 1 ms .. 2 s (a blocking callback):
+          whatever was due fires late, in deadline order. One-sided bounds stay as they are
+          (guard time, exactly-once, order); the upper bounds (output still counted after the
+          guard time, start mode starts at once, clean-up within stop_timeout) are widened by
+          the stalls that happened inside the window the bound is about - not for the run;
+  wjumps  steps of the wall clock (simkit.seams.jump_wall) during the run / the clean-up:
+          no allowance at all, OutputAsync and the stop time-outs use the loop clock;
+  aux     a second OutputAsync ('wait', stop_data only) busy at stop: the simulator waits for
+          the blocks one after the other (longest stop_timeout first, time-outs counted from
+          a common start), so a wrongly computed remaining time hits the block awaited second.
+
+Sensitivity (scratch copies of /repo, quick tier or less):
+  seeded C12-s1..s9 (seeded/*/patch.diff)                                   all caught
+    s8 (repeated abort() cancels the clean-up): needs term2                 caught, ~1 % of runs
+    s9 (_run_tasks measures the elapsed time with time.time()): needs aux + wjumps
+        'stop-data-not-processed/second-block', 'cancelled-without-newer-put', ...   caught
+  _run_tasks: wait_for(task, timeout) instead of the common start (needs aux)
+        'stop-timeout-exceeded/<mode>/tight/other'                          caught
+  guard sleep measured with time.time() (needs wjumps forward during the guard time)
+        'guard-time-shortened', 'output-not-active-count', ...              caught
 """
 
 from __future__ import annotations
@@ -28,19 +57,35 @@ CHUNK = 500
 RULE = ("one run = one OutputAsync block (mode x guard_time x stop_data x stop_timeout "
         "generous/tight) x 1-6 puts on a time grid (same instant, during a run, during guard "
         "time, during the wait for a cancelled run, just before stop) x scripted coroutine "
-        "(duration, failure, slow cancellation) x stop instant x loop knobs; run indices below "
+        "(duration, failure, slow cancellation) x stop instant x loop knobs; random runs "
+        "optionally add (independently) a second source of termination requests (driver at "
+        "stop+dt or wired to on_error/on_success), 1-2 clock stalls, 1-2 wall clock steps, a "
+        "second OutputAsync busy at stop; run indices below "
         "6000 walk mode x guard x stop_data x (arrival pattern of <=3 puts on the grid) "
         "systematically; non-trivial = at least two puts whose handling overlapped in time "
         "(second arrived before the first finished incl. guard) or a stop with work pending; "
-        "distinct = hash of (mode, guard, stop_data, tight, ordered history of kinds)")
+        "distinct = hash of (mode, guard, stop_data, tight, ordered history of kinds, which "
+        "added faults fired)")
 REACH_EXPECTED = ['same_instant_puts', 'put_during_run', 'put_during_guard', 'cancelled_run',
                   'discarded_put', 'failed_run', 'slow_cancel', 'stop_with_pending_work',
-                  'stop_data_last', 'tight_timeout_hit', 'start_mode_concurrent']
+                  'stop_data_last', 'tight_timeout_hit', 'start_mode_concurrent',
+                  'second_terminate_work_pending', 'result_event_terminates_in_cleanup',
+                  'stall_during_run', 'stall_during_cleanup', 'stall_over_run_end',
+                  'stall_over_stop_timeout', 'wall_jump_during_run',
+                  'wall_jump_during_cleanup', 'wall_jump_two_blocks_in_cleanup',
+                  'two_blocks_busy_at_stop']
 ASSUMPTIONS = [
     "the guard sleep belongs to the output task: the output stays incremented during it "
     "(docs: 'the number of active output tasks'); bounds are checked, not the exact instant",
     "tight stratum: when pending work exceeds stop_timeout only boundedness, no duplicates and "
     "no leftovers are demanded (the property promises completion only 'within stop_timeout')",
+    "the stop is the first termination request of the run whatever its source (shutdown(), "
+    "abort(), a 'shutdown'/'abort' event to the control block); later requests are ignored "
+    "(docs: 'the first error stops the simulation') and shutdown() raises the first one's error",
+    "a stall (blocking callback) only delays: upper bounds get the length of the stalls inside "
+    "their own window as extra slack, lower bounds and exactly-once/order clauses get none; "
+    "in the generous stratum stop_timeout is raised by the total stall length",
+    "a step of the wall clock changes nothing (no allowance)",
 ]
 
 GRID = [0.0, 0.1, 0.2, 0.3, 0.5, 0.7, 1.0, 1.5]
@@ -107,7 +152,59 @@ def gen(rng, tier, index=0):
     if plan['stop_shape'] == 'empty':
         plan['stop_data'] = True
         plan['puts'] = []
+    if index >= 6000:
+        # drawn after everything else: the base plan of a given (seed, index) stays what it was
+        gen_extras(rng, plan)
     return plan
+
+
+TERM2_KINDS = ['shutdown', 'abort_cancel', 'abort_error', 'ctrl_shutdown', 'on_error_abort',
+               'on_error_abort', 'on_success_shutdown']
+TERM2_DT = [0.0, 0.001, 0.02, 0.05, 0.1, 0.15, 0.25, 0.4, 0.8, 1.5]
+FAULT_OFFS = [-0.02, 0.0, 0.001, 0.03, 0.08, 0.15, 0.28, 0.45, 0.9]
+STALLS = [0.001, 0.02, 0.15, 0.6, 2.0]
+WJUMPS = [-86400.0, -3600.0, -5.0, -0.5, 0.5, 5.0, 3600.0, 86400.0]
+
+
+def gen_extras(rng, plan):
+    """
+    Optional plan keys (absent = off; replay files recorded before they existed run unchanged):
+      term2   a second source of termination requests besides main's shutdown() at stop_at
+      stalls  driver callbacks that advance the virtual clock (a blocking callback)
+      wjumps  wall clock steps (must not matter: OutputAsync and the stop use the loop clock)
+      aux     a second OutputAsync busy with its stop_data at stop (several blocks cleaned up)
+    """
+    puts = plan['puts']
+    stop_at = plan['stop_at']
+    anchors = [stop_at, stop_at, stop_at]
+    for p in puts:
+        anchors += [p['t'], round(p['t'] + p['dur'], 6)]
+
+    def instant():
+        return round(max(0.5, rng.choice(anchors) + rng.choice(FAULT_OFFS)), 6)
+
+    if rng.random() < 0.30:
+        kind = rng.choice(TERM2_KINDS)
+        plan['term2'] = {'kind': kind, 'dt': rng.choice(TERM2_DT)}
+        if kind == 'on_error_abort' and puts and rng.random() < 0.7:
+            rng.choice(puts)['fail'] = True
+    if rng.random() < 0.22:
+        plan['stalls'] = sorted(({'t': instant(), 'dur': rng.choice(STALLS)}
+                                 for _ in range(rng.choice([1, 1, 2]))), key=lambda s: s['t'])
+        if not plan['tight']:
+            plan['stop_timeout'] = round(
+                plan['stop_timeout'] + sum(s['dur'] for s in plan['stalls']), 3)
+    if rng.random() < 0.22:
+        plan['wjumps'] = sorted(({'t': instant(), 'delta': rng.choice(WJUMPS)}
+                                 for _ in range(rng.choice([1, 1, 2]))), key=lambda s: s['t'])
+    if rng.random() < (0.6 if 'wjumps' in plan else 0.12):
+        if plan['tight']:
+            durs = [d for d in (0.02, 0.05, 0.2, 0.4) if d <= plan['stop_timeout'] * 0.7]
+            extra = rng.choice([0.0, 0.0, 0.5])
+        else:
+            durs = [0.02, 0.05, 0.2, 0.5, 1.2]
+            extra = rng.choice([-1.0, 0.0, 0.0, 1.0])
+        plan['aux'] = {'dur': rng.choice(durs), 'extra_timeout': extra}
 
 
 def execute(plan, trace=False):
@@ -119,7 +216,29 @@ def execute(plan, trace=False):
         script = {p['id']: p for p in plan['puts']}
         script['STOP'] = {'dur': plan.get('stop_dur', 0.0), 'fail': False, 'cancel_delay': 0}
         hist = []       # [t_ns, kind, id, extra]
-        st = {'active_lo': 0, 'stopped': False, 'stop_ns': None, 'end_ns': None}
+        st = {'active_lo': 0, 'stopped': False, 'stop_ns': None, 'end_ns': None,
+              'sim_end_ns': None, 'first': ('main', None)}
+        term2 = plan.get('term2')
+        t2kind = term2['kind'] if term2 else None
+        aux = plan.get('aux')
+        stalls = []     # [start_ns, end_ns] of the stalls that happened
+        wjumps = []     # [t_ns, delta]
+        terms = []      # [index into hist, t_ns, source] of the repeated termination requests
+        auxh = []       # [t_ns, kind, extra] history of the second block
+        harness_tasks = []
+        if t2kind not in (None,) + tuple(TERM2_KINDS):
+            raise PlanError('unknown term2 kind')
+
+        def note_term(src, err=None):
+            """A termination request is being issued right now."""
+            if st['stop_ns'] is None:
+                st['stop_ns'] = loop._ns
+                st['first'] = (src, err)
+                h('term', src, 'first')
+            elif st['sim_end_ns'] is None and st['end_ns'] is None:
+                run.fired('fault:second_terminate')
+                h('term', src, 'again')
+                terms.append([len(hist), loop._ns, src])
 
         def h(kind, ident, extra=None):
             hist.append([loop._ns, kind, ident, extra])
@@ -162,6 +281,11 @@ def execute(plan, trace=False):
             return value if value == 'STOP' else value * 10
 
         def rec(_rec, etype, data):
+            if etype.startswith('aux_'):
+                put = data.get('put') or {}
+                auxh.append([loop._ns, etype[4:], canon({k: v for k, v in put.items()})])
+                run.log('aux', etype, canon(data.get('value')))
+                return
             if etype == 'out':
                 h('out', None, [canon(data.get('previous')), canon(data.get('value'))])
             else:
@@ -170,11 +294,28 @@ def execute(plan, trace=False):
                                                type(data.get('error')).__name__
                                                if 'error' in data else None,
                                                canon({k: v for k, v in put.items()})])
+                # the next event of the same list goes to the control block
+                if etype == 'error' and t2kind == 'on_error_abort':
+                    note_term('on_error_abort')
+                elif etype == 'success' and t2kind == 'on_success_shutdown':
+                    note_term('on_success_shutdown')
         recorder = fsmlib.Recorder('rec', x_sink=rec)
+        on_success = [edzed.Event(recorder, 'success')]
+        on_error = [edzed.Event(recorder, 'error')]
+        ev_ctrl = None
+        try:
+            if t2kind == 'on_error_abort':
+                on_error.append(edzed.Event.abort())
+            elif t2kind == 'on_success_shutdown':
+                on_success.append(edzed.Event.shutdown())
+            elif t2kind == 'ctrl_shutdown':
+                ev_ctrl = edzed.Event('_ctrl', 'shutdown')
+        except Exception as err:
+            raise PlanError(f"Event: {err}") from None
         try:
             blk = edzed.OutputAsync(
                 'out', coro=coro, mode=mode, guard_time=plan['guard'],
-                on_success=edzed.Event(recorder, 'success'), on_error=edzed.Event(recorder, 'error'),
+                on_success=on_success, on_error=on_error,
                 on_cancel=edzed.Event(recorder, 'cancel'), on_output=edzed.Event(recorder, 'out'),
                 stop_data=(({} if shape == 'empty' else {'value': 'STOP'})
                            if plan['stop_data'] else None),
@@ -183,9 +324,36 @@ def execute(plan, trace=False):
                 stop_timeout=plan['stop_timeout'])
         except Exception as err:
             raise PlanError(f"OutputAsync: {err}") from None
+        if aux:
+            async def aux_coro(value):
+                auxh.append([loop._ns, 'begin', value])
+                run.log('aux', 'begin', value)
+                try:
+                    await asyncio.sleep(aux['dur'])
+                except asyncio.CancelledError:
+                    auxh.append([loop._ns, 'end', 'cancelled'])
+                    run.log('aux', 'end', 'cancelled')
+                    raise
+                auxh.append([loop._ns, 'end', 'ok'])
+                run.log('aux', 'end', 'ok')
+                return value
+            try:
+                edzed.OutputAsync(
+                    'aux', coro=aux_coro, mode='wait', stop_data={'value': 'AUX'},
+                    on_success=edzed.Event(recorder, 'aux_success'),
+                    on_error=edzed.Event(recorder, 'aux_error'),
+                    on_cancel=edzed.Event(recorder, 'aux_cancel'),
+                    stop_timeout=round(plan['stop_timeout'] + aux['extra_timeout'], 6))
+            except Exception as err:
+                raise PlanError(f"OutputAsync: {err}") from None
         circuit = edzed.get_circuit()
         slack_ns = plan['knobs']['latency_ns'] * 4 + plan['knobs']['cost_ns'] * 60 + 2000
         guard_ns = int(round(guard * 1e9))
+
+        def stalled(a, b):
+            """Total length of the stalls that ended at/after a and began at/before b."""
+            return sum(e - s for s, e in stalls if e >= a and s <= b)
+        st['stalled'] = stalled
 
         def quiescent():
             if st['end_ns'] is not None or circuit.error is not None or not circuit.is_ready():
@@ -199,7 +367,14 @@ def execute(plan, trace=False):
                 elif kind == 'end':
                     ended[ident] = t
             lo = sum(1 for i in begun if i not in ended)
-            hi = sum(1 for i in begun if i not in ended or ended[i] + guard_ns + slack_ns >= now)
+            if stalls:
+                # a stall delays the begin of the guard sleep (it is started a few loop
+                # iterations after the coroutine ended), its end and the bookkeeping after it
+                hi = sum(1 for i in begun if i not in ended or ended[i] + guard_ns + slack_ns
+                         + stalled(ended[i], now) >= now)
+            else:
+                hi = sum(1 for i in begun
+                         if i not in ended or ended[i] + guard_ns + slack_ns >= now)
             out = blk.output
             if not isinstance(out, int) or not lo <= out <= hi:
                 run.violate('C12/output-not-active-count',
@@ -218,40 +393,112 @@ def execute(plan, trace=False):
                 return
             h('put', p['id'])
 
+        def over():
+            return st['end_ns'] is not None or st['sim_end_ns'] is not None
+
+        def do_stall(s):
+            if over():
+                return
+            t0 = loop._ns
+            loop.advance_ns(int(round(s['dur'] * 1e9)))
+            stalls.append([t0, loop._ns])
+            run.fired('fault:stall')
+            run.log('stall', s['dur'])
+
+        def do_wjump(j):
+            if over():
+                return
+            seams.jump_wall(j['delta'])
+            wjumps.append([loop._ns, j['delta']])
+            run.fired('fault:clock_jump_fwd' if j['delta'] > 0 else 'fault:clock_jump_back')
+            run.log('wall-jump', j['delta'])
+
+        async def shutdown_again():
+            try:
+                await circuit.shutdown()
+            except Exception:       # pylint: disable=broad-except
+                pass                # main() judges the error of the simulation
+
+        def do_term2():
+            if over():
+                return
+            if t2kind == 'shutdown':
+                note_term('shutdown')
+                harness_tasks.append(asyncio.ensure_future(shutdown_again()))
+            elif t2kind == 'abort_cancel':
+                note_term('abort_cancel')
+                circuit.abort(asyncio.CancelledError('once more'))
+            elif t2kind == 'abort_error':
+                err = RuntimeError('abort requested by the driver')
+                note_term('abort_error', err)
+                circuit.abort(err)
+            elif t2kind == 'ctrl_shutdown':
+                note_term('ctrl_shutdown')
+                ev_ctrl.send(recorder)
+
+        def sim_done(_task):
+            st['sim_end_ns'] = loop._ns
+
         async def main():
             simtask = asyncio.create_task(circuit.run_forever())
             await circuit.wait_init()
+            if term2:
+                # only then: old plans must not see one more callback (cost knob draws)
+                simtask.add_done_callback(sim_done)
             for p in plan['puts']:
                 run.at(p['t'], do_put, p)
             fut = loop.create_future()
             run.at(plan['stop_at'], fut.set_result, None)
+            if term2 and t2kind in ('shutdown', 'abort_cancel', 'abort_error', 'ctrl_shutdown'):
+                run.at(plan['stop_at'] + term2['dt'], do_term2)
+            for s in plan.get('stalls', ()):
+                run.at(s['t'], do_stall, s)
+            for j in plan.get('wjumps', ()):
+                run.at(j['t'], do_wjump, j)
             await fut
             h('stop-called', None)
-            st['stop_ns'] = loop._ns
+            if st['stop_ns'] is None:
+                st['stop_ns'] = loop._ns
+            elif not over():
+                run.fired('fault:second_terminate')
+                terms.append([len(hist), loop._ns, 'main'])
             err = None
             try:
                 await circuit.shutdown()
             except Exception as exc:    # pylint: disable=broad-except
                 err = exc
-            st['end_ns'] = loop._ns
+            st['end_ns'] = loop._ns if st['sim_end_ns'] is None else st['sim_end_ns']
             h('sim-end', None, canon(err))
-            if err is not None:
-                run.violate('C12/simulation-error', f"the simulation ended with {canon(err)}")
+            # "the exception that stopped the simulation is raised": the first request counts
+            src, first_err = st['first']
+            if src == 'abort_error':
+                ok = err is first_err
+            elif src == 'on_error_abort':
+                ok = (isinstance(err, edzed.EdzedCircuitError)
+                      and isinstance(err.__cause__, Injected))
+            else:
+                ok = err is None
+            if not ok:
+                run.violate('C12/simulation-error',
+                            f"the simulation ended with {canon(err)}, stopped by {src}")
             await asyncio.sleep(0)
             return simtask
 
         run.run(main())
         if run.harness_error is None and st['end_ns'] is not None:
             judge(run, plan, hist, st, slack_ns, guard_ns)
-            pend = run.pending_tasks()
+            judge_extras(run, plan, hist, st, stalls, wjumps, terms, auxh)
+            pend = run.pending_tasks(exclude=harness_tasks)
             if pend:
                 run.violate(f"C12/task-left-behind/{'tight' if plan['tight'] else 'generous'}",
                             f"tasks still pending after the stop: {pend}")
             n0 = len(hist)
+            n1 = len(auxh)
             run.run_more(60.0)
-            if len(hist) > n0:
+            if len(hist) > n0 or len(auxh) > n1:
                 run.violate('C12/activity-after-stop',
-                            f"output activity after the simulation ended: {hist[n0:][:3]}")
+                            "output activity after the simulation ended: "
+                            f"{(hist[n0:] + auxh[n1:])[:3]}")
         res = run.result()
         if not run.stats.get('nontrivial'):
             res['behaviour'] = None
@@ -265,6 +512,7 @@ def execute(plan, trace=False):
 def judge(run, plan, hist, st, slack_ns, guard_ns):
     mode = plan['mode']
     tight = plan['tight']
+    stalled = st.get('stalled') or (lambda a, b: 0)
     puts = [e for e in hist if e[1] == 'put']
     order = [e[2] for e in puts]
     put_t = {e[2]: e[0] for e in puts}
@@ -373,7 +621,7 @@ def judge(run, plan, hist, st, slack_ns, guard_ns):
                     run.violate('C12/start-put-not-run', f"start: put {ident} was never run")
                 continue
             delay = begins[ident] - put_t[ident]
-            if delay > slack_ns:
+            if delay > slack_ns + stalled(put_t[ident], begins[ident]):
                 run.violate('C12/start-not-immediate',
                             f"start: put {ident} started {delay / 1e9:.6f}s after its arrival")
         if not tight:
@@ -409,6 +657,9 @@ def judge(run, plan, hist, st, slack_ns, guard_ns):
     # design; anything beyond that means new work was started after the time-out
     worst_cancel = max([p['cancel_delay'] for p in plan['puts']] + [0])
     limit = (plan['stop_timeout'] + worst_cancel) * 1e9 + guard_ns + slack_ns + 10_000_000
+    # a stall makes whatever was due fire late: the time-out itself, the end of the coroutine's
+    # reaction to the cancellation, the end of the guard sleep
+    limit += stalled(st['stop_ns'], st['end_ns'])
     if dur_ns > limit:
         deadline = st['stop_ns'] + plan['stop_timeout'] * 1e9
         late_runs = [i for i in seq if begins[i] >= deadline - 1000]
@@ -456,3 +707,66 @@ def judge(run, plan, hist, st, slack_ns, guard_ns):
     run.beh(mode, bool(guard_ns), plan['stop_data'], tight,
             [(e[1], e[3][0] if e[1] == 'result' else (e[3] if e[1] == 'end' else None))
              for e in hist if e[1] != 'out'])
+
+
+def judge_extras(run, plan, hist, st, stalls, wjumps, terms, auxh):
+    """Second block (oracle), reach probes of the added fault dimensions."""
+    tight = plan['tight']
+    stop_ns, end_ns = st['stop_ns'], st['end_ns']
+    begins = {}
+    ends = {}
+    first_result = {}
+    for idx, (t, kind, ident, extra) in enumerate(hist):
+        if kind == 'begin':
+            begins.setdefault(ident, t)
+        elif kind == 'end':
+            ends[ident] = t
+        elif kind == 'result':
+            first_result.setdefault(ident, idx)
+    idents = [e[2] for e in hist if e[1] == 'put'] + (['STOP'] if plan['stop_data'] else [])
+    aux = plan.get('aux')
+    # ---- the second block: its stop_data run needs less than its stop_timeout
+    if aux and not tight:
+        abeg = [e for e in auxh if e[1] == 'begin']
+        aend = [e for e in auxh if e[1] == 'end']
+        ares = [e for e in auxh if e[1] in ('success', 'error', 'cancel')]
+        if (len(abeg) != 1 or [e[2] for e in aend] != ['ok']
+                or [(e[1], e[2]) for e in ares] != [('success', {'value': 'AUX'})]):
+            run.violate('C12/stop-data-not-processed/second-block',
+                        "second OutputAsync (wait, stop_data only, run of "
+                        f"{aux['dur']}s): history {[e[1:] for e in auxh]}")
+    # ---- reach probes
+    for idx, t, src in terms:
+        pending = [i for i in idents if first_result.get(i, len(hist)) >= idx]
+        if pending:
+            run.fired('reach:second_terminate_work_pending')
+            if src in ('on_error_abort', 'on_success_shutdown'):
+                run.fired('reach:result_event_terminates_in_cleanup')
+    busy = [(begins[i], ends.get(i, end_ns)) for i in begins]
+    for s, e in stalls:
+        if any(b <= s < x for b, x in busy if b < stop_ns) and s < stop_ns:
+            run.fired('reach:stall_during_run')
+        if stop_ns <= s < end_ns:
+            run.fired('reach:stall_during_cleanup')
+        for p in plan['puts']:
+            b = begins.get(p['id'])
+            if b is not None and s < b + int(round(p['dur'] * 1e9)) <= e and b <= s:
+                run.fired('reach:stall_over_run_end')
+        if (stop_ns <= e and s - stop_ns <= plan['stop_timeout'] * 1e9 < e - stop_ns
+                and end_ns >= e):
+            run.fired('reach:stall_over_stop_timeout')
+    for t, delta in wjumps:
+        if t < stop_ns and any(b <= t < x for b, x in busy):
+            run.fired('reach:wall_jump_during_run')
+        if stop_ns <= t < end_ns:
+            run.fired('reach:wall_jump_during_cleanup')
+            if aux and any(e[1] == 'begin' and e[0] <= t for e in auxh) \
+                    and not any(e[1] == 'end' and e[0] <= t for e in auxh) \
+                    and any(first_result.get(i) is None or hist[first_result[i]][0] > t
+                            for i in idents):
+                run.fired('reach:wall_jump_two_blocks_in_cleanup')
+    if aux and any(i for i in idents if i not in ends or ends[i] > stop_ns):
+        run.fired('reach:two_blocks_busy_at_stop')
+    if plan.get('term2') or stalls or wjumps or aux:
+        run.beh('extras', (plan.get('term2') or {}).get('kind'), [src for _, _, src in terms],
+                len(stalls), [d > 0 for _, d in wjumps], bool(aux))
